@@ -468,6 +468,17 @@ func ruleParseReset(c *Ctx) {
 		})
 		return true
 	})
+	// the builtin clear(m) empties the map completely as well
+	ast.Inspect(fd.Body, func(nd ast.Node) bool {
+		if call, ok := nd.(*ast.CallExpr); ok && len(call.Args) == 1 {
+			if id, ok := call.Fun.(*ast.Ident); ok && id.Name == "clear" {
+				if _, isBuiltin := p.Info.Uses[id].(*types.Builtin); isBuiltin && strings.HasSuffix(p.Str(call.Args[0]), ".Index") {
+					n++
+				}
+			}
+		}
+		return true
+	})
 	c.Check(okAll && n >= 1, "Object.Parse:index-reset", p.Pos(fd), "a reused Elements.Index is emptied by ranging over itself", "the reused index is not emptied completely ("+why+"): keys of an earlier object survive and Lookup returns an unrelated element or indexes out of range", "Parse two objects with different key sets into the same Elements, then Lookup a key of the first")
 	// Index[name] = len(Elements) taken before the append
 	okIdx := false
